@@ -141,60 +141,93 @@ Print Assumptions C14_isfinite_exact.
 
 (* T2, forward direction: the mirror model of the explicit stack machine of DFA.successors
    (Model/SuccMachine.v: state stack, char stack, candidate, should_yield; the yield point, the
-   descend / next-sibling / return-to-parent branches, pruning by co-accessibility and max_length)
-   generates exactly the specified list: whatever the fuel, it never returns anything else, and with
-   the budget the driver uses (machine_fuel, or anything larger) it does return - no KeyError, no
-   IndexError, no endless loop.  Hypotheses: the start word is over the alphabet (a foreign symbol is
-   the open finding successor_start_has_foreign_symbol), the alphabet is not empty (open finding
-   successor_empty_alphabet), and max_length is given whenever the language is infinite (the code
-   does not terminate otherwise; succ_m answers Err Infinite there). *)
+   descend / next-sibling / return-to-parent branches, pruning by co-accessibility and max_length,
+   next_symbol with its branch for symbols outside the alphabet, back_at_parent, the empty-alphabet
+   guard) generates exactly the specified list: whatever the fuel, it never returns anything else,
+   and with the budget the driver uses (machine_fuel, or anything larger) it does return - no
+   KeyError, no IndexError, no endless loop.
+   Only hypothesis besides validity: max_length is given whenever the language is infinite (the code
+   does not terminate otherwise; succ_m answers Err Infinite there).  NOTHING is assumed about the
+   start word (its symbols may lie inside, below, between or above the alphabet's) or about the
+   alphabet (it may be empty). *)
 Theorem C14_machine_refines_successors : forall m start strict lo ohi,
   valid_dfa m = true ->
   (ohi = None -> finite_lang (L_dfa m)) ->
-  (forall s, start = Some s -> Forall (fun a => In a (d_syms m)) s) ->
   (forall fuel l, succ_machine fuel m start strict false lo ohi = Ok l ->
                   l = succ_list m start strict lo (the_hi m ohi)) /\
-  (d_syms m <> [] -> forall fuel, machine_fuel m start ohi <= fuel ->
+  (forall fuel, machine_fuel m start ohi <= fuel ->
      succ_machine fuel m start strict false lo ohi = Ok (succ_list m start strict lo (the_hi m ohi))).
 Proof.
-  intros m start strict lo ohi Hv Hfin Hstart. split.
-  - intros fuel l. exact (machine_forward_correct fuel m start strict lo ohi l Hv Hfin Hstart).
-  - intros Hne fuel Hf. exact (machine_forward_total fuel m start strict lo ohi Hv Hfin Hstart Hne Hf).
+  intros m start strict lo ohi Hv Hfin. split.
+  - intros fuel l. exact (machine_forward_correct fuel m start strict lo ohi l Hv Hfin).
+  - intros fuel Hf. exact (machine_forward_total fuel m start strict lo ohi Hv Hfin Hf).
 Qed.
 Print Assumptions C14_machine_refines_successors.
 
 (* T2, reverse direction (predecessors = successors(reverse=True), with the row-8 repair): post-order
-   over the descending alphabet, the empty word generated after the loop; same budget *)
+   over the descending alphabet, the empty word generated after the loop; same budget; likewise no
+   hypothesis on the start word or the alphabet *)
 Theorem C14_machine_refines_predecessors : forall m start strict lo ohi,
   valid_dfa m = true ->
   finite_lang (L_dfa m) ->
-  (forall s, start = Some s -> Forall (fun a => In a (d_syms m)) s) ->
   (forall fuel l, succ_machine fuel m start strict true lo ohi = Ok l ->
                   l = pred_list m start strict lo (the_hi m ohi)) /\
-  (d_syms m <> [] -> forall fuel, machine_fuel m start ohi <= fuel ->
+  (forall fuel, machine_fuel m start ohi <= fuel ->
      succ_machine fuel m start strict true lo ohi = Ok (pred_list m start strict lo (the_hi m ohi))).
 Proof.
-  intros m start strict lo ohi Hv Hfin Hstart. split.
-  - intros fuel l. exact (machine_reverse_correct fuel m start strict lo ohi l Hv Hfin Hstart).
-  - intros Hne fuel Hf. exact (machine_reverse_total fuel m start strict lo ohi Hv Hfin Hstart Hne Hf).
+  intros m start strict lo ohi Hv Hfin. split.
+  - intros fuel l. exact (machine_reverse_correct fuel m start strict lo ohi l Hv Hfin).
+  - intros fuel Hf. exact (machine_reverse_total fuel m start strict lo ohi Hv Hfin Hf).
 Qed.
 Print Assumptions C14_machine_refines_predecessors.
 
-(* the statement that used to be open (C14_machine_total_statement), in one piece: with the driver's
-   budget the machine returns the specified list, in either direction *)
+(* both directions in one piece *)
 Theorem C14_machine_total : forall m start strict reverse lo ohi, valid_dfa m = true ->
   (reverse = true \/ ohi = None -> finite_lang (L_dfa m)) ->
-  (forall s, start = Some s -> Forall (fun a => In a (d_syms m)) s) ->
-  d_syms m <> [] ->
   succ_machine (machine_fuel m start ohi) m start strict reverse lo ohi =
     Ok (if reverse then pred_list m start strict lo (the_hi m ohi)
         else succ_list m start strict lo (the_hi m ohi)).
 Proof.
-  intros m start strict reverse lo ohi Hv Hfin Hstart Hne. destruct reverse.
+  intros m start strict reverse lo ohi Hv Hfin. destruct reverse.
   - apply machine_reverse_total; auto.
   - apply machine_forward_total; auto.
 Qed.
 Print Assumptions C14_machine_total.
+
+(* over the empty alphabet no fuel is needed at all: the guard answers *)
+Theorem C14_machine_empty_alphabet : forall fuel m start strict reverse lo ohi,
+  valid_dfa m = true -> d_syms m = [] ->
+  succ_machine fuel m start strict reverse lo ohi =
+    Ok (if reverse then pred_list m start strict lo (the_hi m ohi)
+        else succ_list m start strict lo (the_hi m ohi)).
+Proof.
+  intros fuel m start strict reverse lo ohi Hv He.
+  assert (Efin : finite_lang (L_dfa m)).
+  { exists 0. intros w Hw. pose proof (acc_syms m Hv w Hw) as Hf. rewrite He in Hf.
+    destruct w as [|a w]; [apply le_n|]. inversion Hf as [|? ? Ha _]. destruct Ha. }
+  assert (Es : set_of (d_syms m) = []) by (rewrite He; reflexivity).
+  unfold succ_machine. destruct (finite_isfinite m Hv Efin) as [E1 _].
+  destruct (coreach_states_ok m Hv) as [co [Eco _]].
+  destruct reverse; [rewrite E1|]; simpl; rewrite Eco; simpl; unfold machine_syms; rewrite Es; simpl; f_equal.
+  - apply empty_guard_pred. exact Es.
+  - apply empty_guard_succ. exact Es.
+Qed.
+Print Assumptions C14_machine_empty_alphabet.
+
+(* the input on which the refinement proof did not close before 366d64a (a start symbol below the
+   whole alphabet: alphabet {1}, all words accepted, start [0] resp. [1;0]; the code then generated
+   the proper prefix [] resp. [1] of the start word again) *)
+Definition ex_b : dfa := mkdfa [0] [1] [(0,[(1,0)])] 0 [0] false.
+Example C14_foreign_below_regression :
+  valid_dfa ex_b = true /\
+  succ_list ex_b (Some [0]) true 0 1 = [[1]] /\
+  succ_machine (machine_fuel ex_b (Some [0]) (Some 1)) ex_b (Some [0]) true false 0 (Some 1) = Ok [[1]] /\
+  succ_list ex_b (Some [1;0]) true 0 1 = [] /\
+  succ_machine (machine_fuel ex_b (Some [1;0]) (Some 1)) ex_b (Some [1;0]) true false 0 (Some 1) = Ok [] /\
+  succ_machine (machine_fuel ex_b (Some [1;0]) (Some 2)) ex_b (Some [1;0]) false false 0 (Some 2) = Ok [[1;1]] /\
+  succ_machine (machine_fuel ex_b (Some [2]) (Some 1)) ex_b (Some [2]) true false 0 (Some 1) = Ok [] /\
+  succ_machine (machine_fuel ex_b (Some [0]) (Some 1)) ex_b (Some [0]) true true 0 (Some 1) = Err Infinite.
+Proof. vm_compute. repeat split. Qed.
 
 (* the iteration count behind the budget: a traversal never needs more than (n+1) loop iterations per
    node of the trie of words of length <= hi over the n symbols, plus (n+1) per symbol of the start word *)
@@ -211,8 +244,13 @@ Definition ex_fin : dfa := mkdfa [0;1;2] [0;1] [(0,[(0,1);(1,2)]);(1,[(1,2)]);(2
 (* complete DFA over {0}: even number of 0s (infinite) *)
 Definition ex_inf : dfa := mkdfa [0;1] [0] [(0,[(0,1)]);(1,[(0,0)])] 0 [0] false.
 
+(* the alphabet {0,2} (code 1 is a character outside it): 0 -0-> 1, 0 -2-> 2, 1 -2-> 2; L = {e, 2, 02} *)
+Definition ex_gap : dfa := mkdfa [0;1;2] [0;2] [(0,[(0,1);(2,2)]);(1,[(2,2)]);(2,[])] 0 [0;2] true.
+(* the empty alphabet: L = {e} *)
+Definition ex_noalpha : dfa := mkdfa [0] [] [(0,[])] 0 [0] true.
+
 Example C14_example_lists :
-  valid_dfa ex_fin = true /\ valid_dfa ex_inf = true /\
+  valid_dfa ex_fin = true /\ valid_dfa ex_inf = true /\ valid_dfa ex_gap = true /\ valid_dfa ex_noalpha = true /\
   dict_order [0;1] 2 = [[]; [0]; [0;0]; [0;1]; [1]; [1;0]; [1;1]] /\
   succ_m ex_fin None true 0 None = Ok [[]; [0;1]; [1]] /\
   succ_m ex_fin (Some []) true 0 None = Ok [[0;1]; [1]] /\
@@ -234,7 +272,22 @@ Example C14_example_lists :
   succ_machine (machine_fuel ex_fin (Some [0]) None) ex_fin (Some [0]) true false 0 None = Ok [[0;1]; [1]] /\
   succ_machine (machine_fuel ex_inf (Some [0]) (Some 5)) ex_inf (Some [0]) false false 0 (Some 5) = Ok [[0;0]; [0;0;0;0]] /\
   succ_machine (machine_fuel ex_fin (Some [1]) None) ex_fin (Some [1]) true true 0 None = Ok [[0;1]; []] /\
-  succ_machine 5 ex_fin None true false 0 None = Err Fuel.
+  succ_machine 5 ex_fin None true false 0 None = Err Fuel /\
+  (* start words with symbols outside the alphabet {0,1}: 7 above it; and over the alphabet {0,2} one between *)
+  succ_machine (machine_fuel ex_fin (Some [0;0;7]) None) ex_fin (Some [0;0;7]) false false 1 None = Ok [[0;1]; [1]] /\
+  succ_machine (machine_fuel ex_fin (Some [0;7]) None) ex_fin (Some [0;7]) true true 0 None = Ok [[0;1]; []] /\
+  pred_m ex_fin (Some [0;7]) true 0 None = Ok [[0;1]; []] /\
+  succ_machine (machine_fuel ex_gap (Some [0;1]) None) ex_gap (Some [0;1]) true false 0 None = Ok [[0;2]; [2]] /\
+  succ_m ex_gap (Some [0;1]) true 0 None = Ok [[0;2]; [2]] /\
+  succ_machine (machine_fuel ex_gap (Some [1]) None) ex_gap (Some [1]) true true 0 None = Ok [[0;2]; []] /\
+  pred_m ex_gap (Some [1]) true 0 None = Ok [[0;2]; []] /\
+  (* the empty alphabet *)
+  succ_machine 0 ex_noalpha None true false 0 None = Ok [[]] /\ succ_m ex_noalpha None true 0 None = Ok [[]] /\
+  succ_machine 0 ex_noalpha (Some []) true false 0 None = Ok [] /\
+  succ_machine 0 ex_noalpha (Some []) false true 0 None = Ok [[]] /\
+  succ_machine 0 ex_noalpha (Some [3]) true true 0 None = Ok [[]] /\ pred_m ex_noalpha (Some [3]) true 0 None = Ok [[]] /\
+  succ_machine 0 ex_noalpha (Some [3]) false false 0 None = Ok [] /\
+  succ_machine 0 ex_noalpha None true false 1 None = Ok [].
 Proof. vm_compute. repeat split. Qed.
 
 Example C14_example_hypotheses : finite_lang (L_dfa ex_fin) /\ infinite_lang (L_dfa ex_inf).
